@@ -1008,7 +1008,8 @@ _vbi_export_grow_buffer_space	(vbi_export *		e,
 
 		/* Carry over the old data because the output may
 		   fit after all. */
-		memcpy (e->buffer.data, old_data, e->buffer.offset);
+		if (e->buffer.offset > 0) /* old_data can be NULL */
+			memcpy (e->buffer.data, old_data, e->buffer.offset);
 
 		return TRUE;
 	} else {
